@@ -6,7 +6,7 @@ import ast
 
 from ..cfg import cfg_of
 from ..index import AnalysisError, function_stmts, walk_no_nested
-from ..util import (callee_last, calls_in, enclosing_stmt, kw, names_in, path_condition, show_condition, txt,
+from ..util import (Expander, callee_last, calls_in, enclosing_stmt, kw, names_in, path_condition, show_condition, txt,
                     in_subtree)
 
 EXPLANATION = (
@@ -260,9 +260,12 @@ def r5_raise_warning(ctx):
             continue
         for c in warns:
             st = enclosing_stmt(c)
-            pc = path_condition(cfg, cfg.node_of(st).id)
-            want_names = tuple(sorted(["check.raise_warning", "passed"]))
-            ok = pc[0] == want_names and pc[1] == frozenset({tuple(True if n == "check.raise_warning" else False for n in want_names)})
+            chk = f.positional[3] if len(f.positional) > 3 else "check"
+            pc = path_condition(cfg, cfg.node_of(st).id, expand=Expander(f.node))
+            names = pc[0]
+            verdict = [n for n in names if n.endswith(".check_passed") or ".check_passed." in n]
+            ok = len(names) == 2 and f"{chk}.raise_warning" in names and len(verdict) == 1 and \
+                pc[1] == frozenset({tuple(True if n == f"{chk}.raise_warning" else False for n in names)})
             ctx.ob("R5", f, "warnings.warn reached exactly when (not passed) and check.raise_warning", ok,
                    f"reached under {show_condition(pc)}" + ("" if ok else ": the downgrade to a warning depends on more than "
                                                              "`not passed and check.raise_warning`, so some failing checks still raise"), f.loc(c))
@@ -287,15 +290,19 @@ def r6_groups(ctx):
     if f is None:
         raise AnalysisError("_format_groupby_input missing")
     cfg = cfg_of(f.node)
+    # the mapping that is returned, and the stores into it
+    returned = {s.value.id for s in function_stmts(f) if isinstance(s, ast.Return) and isinstance(s.value, ast.Name)}
     stores = [s for s in function_stmts(f) if isinstance(s, ast.Assign) and isinstance(s.targets[0], ast.Subscript)
-              and txt(s.targets[0].value) == "output"]
-    keep = lambda t, n: " in groups" in t or "groups is None" in t
+              and txt(s.targets[0].value) in returned]
+    gparam = f.positional[2] if len(f.positional) > 2 else "groups"
+    keep = lambda t, n: t.endswith(f" in {gparam}") or t == f"{gparam} is None"
     ok = bool(stores)
     det = []
     for s in stores:
         pc = path_condition(cfg, cfg.node_of(s).id, keep=keep)
         d = dict(zip(pc[0], next(iter(pc[1])))) if len(pc[1]) == 1 else {}
-        good = d.get("group_key in groups") is True and d.get("groups is None") is False
+        key = txt(s.targets[0].slice)
+        good = d.get(f"{key} in {gparam}") is True and d.get(f"{gparam} is None") is False
         ok = ok and good
         det.append(show_condition(pc))
     ctx.ob("R6", f, "only requested groups are handed to the check function", ok, "; ".join(det) or "no store into output")
